@@ -267,7 +267,7 @@ def run_shard(spec, res):
     xmlschema = env.activate_repo()
     fam, version = spec['family'], spec['version']
     cls = xmlschema.XMLSchema10 if version == '1.0' else xmlschema.XMLSchema11
-    xsd = ALL_FAMILIES[fam]
+    xsd = D.family_xsd(fam, version)
     rng = env.rng_for(PROPERTY, spec['tier'], spec['seed'], fam, version, spec['part'])
     failpoint = Failpoint(env.VERIF_REPO)
     pool = build_pool(fam, rng)
@@ -340,7 +340,7 @@ def replay(case):
     xmlschema = env.activate_repo()
     fam, version = case['family'], case['version']
     cls = xmlschema.XMLSchema10 if version == '1.0' else xmlschema.XMLSchema11
-    xsd = ALL_FAMILIES[fam]
+    xsd = D.family_xsd(fam, version)
     failpoint = Failpoint(env.VERIF_REPO)
     schema = cls(xsd)
     bad = False
